@@ -25,7 +25,7 @@ func init() { register(c15{}) }
 
 func (c15) ID() string { return "C15" }
 func (c15) Rule() string {
-	return "the real gts binary (--no-cache) is run on generated GenBank records (20..60 residues that are pairwise distinct complement-invariant printable ids, 0..7 uniquely labelled features over ranges/points/joins/complements, linear and circular) and on the phiX174 corpus record, with locators built from points, ranges, complement(range), selectors by key and /label regexp matching 0..k features, each optionally with a modifier that stays in range (for gts rotate and single-cut gts split on circular records also positions before residue 1 or after the last residue, which wrap); commands delete [-e], insert [-e] (literal and file guests), infix [-e], split, rotate, extract [-v], each also with -F fasta. stdout is parsed back with seqio. Every third case is also run with the cache on, after the sibling invocation (-e or -v toggled; rotate for split and split for rotate) on the same input over the same cache directory, twice: it must print what the --no-cache run printed. The located regions are obtained from the same locator through the library (locator semantics are C08's); the expected output is computed by the model from the regions: delete -> residues minus the union, one record, features = image under the deletion of the maximal runs; insert/infix -> one guest copy per located region at its Head() in input coordinates, features = image under the insertions; split -> pieces concatenate to the input (circular: to the input rotated to a cut), cut set = one acceptable position per region (Head, or the lower coordinate for reverse-strand regions), fragments of each feature together cover its residues; rotate -> first located Head at index 0, features cyclically shifted; extract -> one record per distinct region shorter than the record (a single region as long as the record is don't-care), residues = model extraction, -v -> the maximal unlocated stretches (the whole record when nothing is located). non-trivial: >=2 located regions, or regions that overlap/nest/abut/are unsorted; distinct: (command line, input record)."
+	return "the real gts binary (--no-cache) is run on generated GenBank records (20..60 residues that are pairwise distinct complement-invariant printable ids, 0..7 uniquely labelled features over ranges/points/joins/complements, linear and circular) and on the phiX174 corpus record, with locators built from points, ranges, complement(range), selectors by key and /label regexp matching 0..k features, each optionally with a modifier that stays in range (for gts rotate and single-cut gts split on circular records also positions before residue 1 or after the last residue, which wrap); commands delete [-e], insert [-e] (literal and file guests), infix [-e], split, rotate, extract [-v], each also with -F fasta. stdout is parsed back with seqio. Every third case is also run with the cache on, after the sibling invocation (-e or -v toggled; rotate for split and split for rotate) on the same input over the same cache directory, twice: it must print what the --no-cache run printed. The located regions are obtained from the same locator through the library (locator semantics are C08's); the expected output is computed by the model from the regions: delete -> residues minus the union, one record, features = image under the deletion of the maximal runs; insert/infix -> one guest copy per located region at its Head() in input coordinates, features = image under the insertions; split -> pieces concatenate to the input (circular: to the input rotated to a cut), cut set = one acceptable position per region (Head, or the lower coordinate for reverse-strand regions), fragments of each feature together cover its residues; rotate -> first located Head at index 0, features cyclically shifted; extract -> one record per distinct region shorter than the record (a single region as long as the record is don't-care), residues = model extraction, every feature of an extracted record denotes exactly the residues (distinct ids) its input feature denotes inside the region, -v -> the maximal unlocated stretches (the whole record when nothing is located). non-trivial: >=2 located regions, or regions that overlap/nest/abut/are unsorted; distinct: (command line, input record)."
 }
 func (c15) Assumptions() []string {
 	return []string{"seqio's scanner as the reader of gts output (itself the subject of C01/C07/C16/C17)", "the library's AsLocator for which regions a locator denotes (subject of C08)", "Go toolchain; harness models"}
@@ -35,7 +35,7 @@ func (c15) RequiredBuckets(tier string) []string {
 	for _, k := range []string{"delete", "delete -e", "insert", "insert -e", "infix", "split", "rotate", "extract", "extract -v"} {
 		out = append(out, "cmd:"+k)
 	}
-	out = append(out, "sites:0", "sites:1", "sites:2+", "sites:overlapping", "sites:duplicate-head", "sites:reverse-strand", "sites:unsorted", "topology:circular", "topology:linear", "format:fasta", "format:genbank", "input:corpus", "input:generated", "locator:modifier", "sites:beyond-the-origin-of-a-circular-record", "cache-on:after-sibling")
+	out = append(out, "sites:0", "sites:1", "sites:2+", "sites:overlapping", "sites:duplicate-head", "sites:reverse-strand", "sites:unsorted", "topology:circular", "topology:linear", "format:fasta", "format:genbank", "input:corpus", "input:generated", "locator:modifier", "sites:beyond-the-origin-of-a-circular-record", "cache-on:after-sibling", "extract:features-denote-their-residues")
 	return out
 }
 func (c15) Findings() []fw.Finding {
@@ -891,6 +891,59 @@ func (x *c15run) one(rec *c15rec, cmd string, flags []string, locstr string, r *
 				viol("residues", fmt.Sprintf("record %d = %q", i+1, strict[i]), fmt.Sprintf("%q", fo[i]))
 				return
 			}
+		}
+		// "Features in every output denote the residues they denoted in the
+		// input": the residues of a generated record are pairwise distinct
+		// ids, so what a feature of an extracted record denotes can be read off
+		// its residues - exactly the ids its input feature denotes, as far as
+		// the extracted region holds them.
+		if !fasta && !rec.corpus && len(optional) == 0 && len(outs) == len(strict) {
+			idsOf := func(b []byte, loc gts.Location) map[byte]bool {
+				m := map[byte]bool{}
+				for _, a := range model.Bases(model.Atoms(model.Parts(loc))) {
+					if a.Pos >= 0 && a.Pos < len(b) {
+						m[b[a.Pos]] = true
+					}
+				}
+				return m
+			}
+			show := func(m map[byte]bool) string {
+				var bb []byte
+				for k := range m {
+					bb = append(bb, k)
+				}
+				sort.Slice(bb, func(i, j int) bool { return bb[i] < bb[j] })
+				return string(bb)
+			}
+			for i, o := range outs {
+				region := map[byte]bool{}
+				for _, b := range strict[i] {
+					region[b] = true
+				}
+				got := map[string]map[byte]bool{}
+				for _, g := range o.Features() {
+					lab := gen.Label(g)
+					if got[lab] == nil {
+						got[lab] = map[byte]bool{}
+					}
+					for k := range idsOf(o.Bytes(), g.Loc) {
+						got[lab][k] = true
+					}
+				}
+				for _, f := range rec.tab {
+					want := map[byte]bool{}
+					for k := range idsOf(rec.bytes, f.Loc) {
+						if region[k] {
+							want[k] = true
+						}
+					}
+					if show(want) != show(got[gen.Label(f)]) {
+						viol("feature-residues", fmt.Sprintf("record %d: %s %s denotes %q of the extracted residues", i+1, gen.Label(f), model.SafeString(f.Loc), show(want)), fmt.Sprintf("%q", show(got[gen.Label(f)])))
+						return
+					}
+				}
+			}
+			c.Bucket("extract:features-denote-their-residues")
 		}
 	}
 }
